@@ -129,3 +129,56 @@ _prop("C18", DECODE + [R_ZOF],
 _prop("C19", DECODE + [R_BIND],
       "Bulletproofs++: " + _DEC,
       "completeness / soundness of the norm argument, generator determinism")
+
+
+def _ct_run(cfg, tier):
+    import r_ct
+    return _memo("R-CT", cfg, lambda c: r_ct.obligations_for(c, tier))
+
+
+R_CT = {"name": "R-CT", "run": _ct_run}
+
+_prop("C06", [R_CT],
+      "Constant time, decided over the LLVM IR of src/ctime_tests.c linked with the library by abstract interpretation (engine irx: byte-granular "
+      "taint, sub-object extents, fully context-sensitive, all paths): secrets are exactly the bytes the maintainers mark with CHECKMEM_UNDEFINE, "
+      "CHECKMEM_DEFINE / secp256k1_declassify clear them, and no tainted value reaches a branch or switch condition, a load / store / memcpy address, "
+      "a memcpy / memset length, a div / rem operand or an indirect-call target in any function. One obligation per library entry point called by "
+      "run_tests(), once as written and once with the context's blinding state (scalar_offset, ge_offset, proj_blind) secret from creation on "
+      "(randomized contexts). A positive-control fixture must be flagged on every run.",
+      "instruction selection turning a select into a branch, variable-latency instructions (as for valgrind); the -O2 IR pass of the design is not built "
+      "(needs constant-integer memory slots for the inlined declassify); per-API symbolic roots with optional arguments toggled are not built",
+      level="proof", engine="irx",
+      technique="static analysis: abstract interpretation (taint / information flow) over whole-program LLVM IR, custom engine irx",
+      trusted_base=["clang 14 -O0 IR generation + opt-14 mem2reg/loop-rotate/indvars/full-unroll(<=8)", "engines/irx.cc", "rules/r_ct.py",
+                    "src/ctime_tests.c as the secrecy specification", "models: memcpy/memset/malloc/abort, secp256k1_memcmp_var(n const), inline-asm effects from constraints"],
+      assumptions=["-O0 IR mirrors the source statement by statement; a branch-free verdict there is the property's second sentence",
+                   "secp256k1_declassify is trusted as the maintainers' statement that a value is public, exactly as valgrind trusts it",
+                   "the blinding state cancels algebraically in the result of secp256k1_ecmult_gen (its taint is dropped from that result only)",
+                   "inline asm is data flow only: its template is scanned for control-transfer mnemonics"],
+      configs_quick=["K0"], configs_thorough=["K0", "K1", "K2", "K3"])
+
+
+def _eff_rule(name, func):
+    def run(cfg, tier):
+        import r_eff
+        return _memo(name, cfg, lambda c: getattr(r_eff, func)(c))
+    return {"name": name, "run": run, "unscoped": True}
+
+
+R_GLOB = _eff_rule("R-GLOB", "glob_obligations")
+R_EFF = _eff_rule("R-EFF", "eff_obligations")
+R_ALLOC = _eff_rule("R-ALLOC", "alloc_obligations")
+
+_prop("C20", [R_GLOB, R_EFF, R_ALLOC],
+      "Context independence, state/effect clauses: R-GLOB every object with static storage duration in the library's translation units is const "
+      "(AST inventory), cross-checked against the writable sections of the objects compiled from the current tree; R-EFF (engine irx, symbolic "
+      "arguments, all paths) no exported function taking a const context stores into the context object or into any global, hence concurrent use "
+      "of one context through that API has no write to shared library state; R-ALLOC only the documented allocators reach malloc and context "
+      "creation / cloning reach exactly one allocation site outside any loop. Positive-control fixture on every run.",
+      "equality of results across randomisation histories (the blinding invariant nG = comb(n + offset) + ge_offset is algebra) and across "
+      "compression-function replacements; static-context behaviour beyond the is_built guards",
+      engine="irx+sx",
+      technique="static analysis: AST inventory of static storage + object-file section cross-check + write-effect abstract interpretation over LLVM IR (irx) + call-graph reachability",
+      assumptions=["objects handed to the API by the caller do not overlap the context",
+                   "caller-supplied callbacks (noncefp, hash functions, compression function, illegal/error callbacks) are the caller's code: the library defaults are analysed, a caller-supplied pointer is opaque"],
+      configs_quick=["K0"], configs_thorough=["K0", "K1", "K2", "K3"])
